@@ -44,6 +44,9 @@ type c13world struct {
 	// 300-1800 children
 	deep bool
 	wide bool
+	// leaves created so far (candidates for an equal second occurrence) and the number of such occurrences
+	leaves    []*c13m
+	dupLeaves int
 }
 
 type c13interp struct {
@@ -134,6 +137,16 @@ func (w *c13world) gen(d int) *c13m {
 		k = 3 + w.r.Intn(7)
 	}
 	if d <= 0 || k < 3 {
+		if len(w.leaves) > 0 && w.r.Intn(4) == 0 {
+			// a leaf that is EQUAL to an earlier one: the same terminal node object mentioned twice (parse trees of memoized
+			// grammars are DAGs) or a second EmptyNode at the same position (two zero-width matches at one place on
+			// different levels). Every pass has to treat the occurrences separately; they share the earlier leaf's id.
+			e := w.leaves[w.r.Intn(len(w.leaves))]
+			w.nextID--
+			w.dupLeaves++
+			return &c13m{id: e.id, sel: -1, kind: e.kind, node: e.node}
+		}
+		defer func() { w.leaves = append(w.leaves, m) }()
 		if k == 0 {
 			m.kind = 1
 			m.node = ast.EmptyNode(parsley.Pos(m.id))
@@ -300,6 +313,7 @@ func c13exec(j run.Job, a *run.Acc) {
 		a.Count("trees", 1)
 		a.Count("nodes", int64(nNodes))
 		a.Count("nodes bound to the library's own interpreter.Select", int64(w.nSel))
+		a.Count("leaves equal to an earlier leaf of the same tree (same object / same empty position)", int64(w.dupLeaves))
 
 		// ---- Walk: post-order, every node once, stops right after the first true
 		total := nNodes
